@@ -1,5 +1,5 @@
 #!/usr/bin/env python3
-"""tools/rebase-seeded.py <seeded-name> <edits.py>  - re-express a seeded change on /repo HEAD after a repair moved its context lines.
+"""tools/rebase-seeded.py <seeded-name | mutants/X.patch> <edits.py>  - re-express a seeded change on /repo HEAD after a repair moved its context lines.
 
 <edits.py> defines EDITS = [(file-relative-to-repo, old, new), ...] (exact string replacement, first occurrence).
 The patch is re-created from a scratch copy of /repo HEAD, the 65 tests are re-run with it, and the seed's own demo is
@@ -46,6 +46,11 @@ try:
     env = dict(os.environ, PYTHONPATH=f"{scratch}/b/src")
     tests = subprocess.run(["/venv/bin/python", "-m", "pytest", "-q", "-p", "no:cacheprovider"], cwd=f"{scratch}/b", env=env, capture_output=True, text=True, timeout=600).stdout.strip().splitlines()[-1]
     assert "65 passed" in tests, tests
+    if name.startswith("mutants/"):
+        # an own mutant: only the 65 tests are re-confirmed here, ./selftest-mutants confirms that it is caught
+        open(f"{root}/{name}", "w").write(diff)
+        print(f"{name}: tests '{tests}' (own mutant re-created)")
+        sys.exit(0)
     demo = f"{root}/seeded/{name}/demo.py"
     w = subprocess.run(["/venv/bin/python", demo], cwd=scratch, env=env, capture_output=True, text=True, timeout=300)
     wo = subprocess.run(["/venv/bin/python", demo], cwd=scratch, env=dict(os.environ, PYTHONPATH="/repo/src"), capture_output=True, text=True, timeout=300)
